@@ -380,6 +380,8 @@ theorem queries_model_holds (inp : Input) (f : Rat → Rat → Rat) (q : Query)
       cases b <;> simp [answerF, holdsQ, h.1, h.2]
   | density =>
     simp only [answerF, holdsQ, density_spec inp hrow, approx_refl]
+  | nnz =>
+    simp only [answerF, holdsQ, nnzM_eq_nnzCells inp.csr hrow.wf hrow.nsz, hrow.content, beq_self_eq_true]
   | reduce name ax =>
     have h := reduce_spec inp.t ht f ax
     by_cases he : inp.t.samp.length = 0 ∨ inp.t.obs.length = 0
@@ -961,6 +963,42 @@ theorem nonzero_model_holds (inp : Input) (ht : TableOK inp.t) (hrow : inp.rowOK
       simp [hm, this]
 
 
+/-! ### repr -/
+
+theorem specDensity_nonneg (t : Table Rat) : 0 ≤ specDensity t := by
+  unfold specDensity
+  split
+  · exact Rat.le_refl
+  · next h =>
+    have hk : t.samp.length * t.obs.length ≠ 0 := by
+      intro e
+      rcases Nat.mul_eq_zero.mp e with e | e
+      · exact h (Or.inr e)
+      · exact h (Or.inl e)
+    obtain ⟨k, hk'⟩ := Nat.exists_eq_succ_of_ne_zero hk
+    rw [hk', Rat.div_def]
+    apply Rat.mul_nonneg Rat.natCast_nonneg
+    apply Rat.le_of_lt
+    rw [Rat.inv_pos]
+    have : (0 : Rat) ≤ (k : Rat) := Rat.natCast_nonneg
+    have e : ((k.succ : Nat) : Rat) = (k : Rat) + 1 := by simp
+    rw [e]; grind
+
+theorem pctOK_trunc (d : Rat) (hd : 0 ≤ d) : pctOK d (truncZ (100 * d)) = true := by
+  have hx : (0 : Rat) ≤ 100 * d := Rat.mul_nonneg (by decide) hd
+  have h1 := Rat.floor_le (100 * d)
+  have h2 := Rat.lt_floor_add_one (100 * d)
+  have h3 : (((100 * d).floor + 1 : Int) : Rat) = ((100 * d).floor : Rat) + 1 := by simp
+  rw [h3] at h2
+  simp only [pctOK, truncZ, hx, if_true, Bool.and_eq_true, decide_eq_true_eq, pctEps]
+  constructor <;> grind
+
+/-- `repr(table)`: the shape, the number of non-zero cells, and the truncated density percentage -/
+theorem repr_model_holds (inp : Input) (hrow : inp.rowOK) : holdsRepr inp.t (reprM inp) = true := by
+  simp only [holdsRepr, reprM, beq_self_eq_true, Bool.true_and, nnzM_eq_nnzCells inp.csr hrow.wf hrow.nsz,
+    hrow.content, density_spec inp hrow]
+  exact pctOK_trunc _ (specDensity_nonneg inp.t)
+
 /-- everything at once: for every table of the domain in every well-formed layout without stored
 zeros, each predicate of the property is true of what the model of the code produces -/
 theorem model_holds (inp : Input) (ht : TableOK inp.t) (hrow : inp.rowOK) (hcol : inp.colOK) :
@@ -971,14 +1009,16 @@ theorem model_holds (inp : Input) (ht : TableOK inp.t) (hrow : inp.rowOK) (hcol 
     (∀ o, holdsIds inp.t o (idsM inp.t o) = true) ∧
     (∀ n m, holdsHead inp.t n m (headM inp.t n m) = true) ∧
     holdsFrame inp.t (frameDenseM inp.t) = true ∧
-    (∃ ps, nonzeroM inp = .ok ps ∧ holdsNonzero inp.t ps = true) :=
+    (∃ ps, nonzeroM inp = .ok ps ∧ holdsNonzero inp.t ps = true) ∧
+    holdsRepr inp.t (reprM inp) = true :=
   ⟨fun f q => queries_model_holds inp f q ht hrow hcol,
    fun b => stats_model_holds inp.t ht b,
    fun q o std h => report_model_holds inp ht hrow hcol q o std h,
    fun o => ids_model_holds inp.t o,
    fun n m => head_model_holds inp.t n m,
    frame_dense_holds inp.t,
-   nonzero_model_holds inp ht hrow⟩
+   nonzero_model_holds inp ht hrow,
+   repr_model_holds inp hrow⟩
 
 
 /-! ### the decidable layout check of the driver implies the hypotheses of the theorems -/
